@@ -114,6 +114,7 @@ type workerSummary struct {
 	Trouble     []string          `json:"trouble"`
 	Samples     []sample          `json:"samples"`
 	AutoTasks   int               `json:"auto_tasks"`
+	PCTRuns     int               `json:"pct_runs"`
 	Untouched   int               `json:"untouched_keys"`
 	SelfTestBad []string          `json:"selftest_bad"`
 	RunLog      []string          `json:"run_log,omitempty"`
@@ -210,6 +211,9 @@ func Main(t *testing.T, h Harness) {
 		sum.Steps += int64(o.Sched.Steps)
 		sum.VirtualS += o.Virtual.Seconds()
 		sum.AutoTasks += o.Sched.AutoTasks
+		if o.Sched.PCT {
+			sum.PCTRuns++
+		}
 		sum.Untouched += simrt.UntouchedKeys
 		for k, v := range o.Faults {
 			sum.Faults[k] += v
